@@ -268,3 +268,23 @@ Proof. intros H x y Hx Hy E. exact (H y x Hy Hx (eq_sym E)). Qed.
 
 Lemma accepted_app a b : accepted a -> accepted b -> disjoint a b -> accepted (a ++ b).
 Proof. intros Ha Hb D. exact (interleaving_safe a b (a ++ b) (merge_app a b) D Ha Hb). Qed.
+
+(* ---------- 5. a release the pool refuses (the pool is full: no Rec event) ---------- *)
+
+Lemma run_obj_prefix : forall t1 t2 s s', run_obj s (t1 ++ t2) = inl s' -> exists s1, run_obj s t1 = inl s1.
+Proof.
+  induction t1 as [|e t1 IH]; intros t2 s s' H; [eexists; reflexivity|].
+  cbn [app run_obj] in *. destruct (auto_step s e) as [s1|c]; [exact (IH t2 s1 s' H)|discriminate].
+Qed.
+
+(* dropping a Rec event after which its object is not used any more (it was not put back, so nobody can get it
+   from the pool) keeps a trace accepted: every path theorem also covers its variants under a full pool *)
+Theorem refused_release_safe : forall a o b,
+  accepted (a ++ Rec o :: b) -> (forall e, In e b -> obj e <> o) -> accepted (a ++ b).
+Proof.
+  intros a o b H Hb o'. destruct (H o') as [s Hs]. rewrite project_app in *.
+  destruct (Z.eq_dec o o') as [<-|Hne].
+  - rewrite (project_nil_if_absent o b Hb), app_nil_r. exact (run_obj_prefix _ _ _ _ Hs).
+  - replace (project o' (Rec o :: b)) with (project o' b) in Hs; [eauto|].
+    unfold project. cbn [filter obj]. destruct (Z.eqb_spec o o'); [contradiction|reflexivity].
+Qed.
